@@ -62,6 +62,10 @@ CHECKS = {
    "exhaustive one-edit mutation neighbourhoods (every offset / element / attribute / numeric field) of seed messages under a per-case watchdog",
    "Every truncation, every substitution of 8 hostile bytes at every offset, every element/attribute deletion, duplication and sibling swap, every numeric field replaced by 10 hostile values, and prefix/suffix splices of 21 seed messages are delivered as the hello, as the reply to one of two outstanding requests, or as a get-config reply to the agent's readers: no panic (catch_unwind), every future resolves within a poll budget and a 10 s watchdog, and the other outstanding request still receives its own reply.",
    "One- and two-edit neighbourhoods of a finite seed set, not all byte strings; an abort (allocation failure, stack exhaustion) would be a machinery failure.", "DESIGN.md §2 E3 C14"),
+ "C19": ("E7", "model_checking",
+   "exhaustive exploration of outcome sequences x periods x signal plans of the real daemon loop in virtual time",
+   "The real Loop::start (interval, select!, back-off arithmetic, signal arms, handle_task(tokio::spawn(job))) runs under a paused tokio clock for every outcome string over {success, failure} up to length 8 (thorough 11) x 11 periods on both sides of the one-minute back-off x three run-duration profiles, long outages (40 failures) and panicking jobs; SIGHUP / SIGINT / SIGTERM are raised mid-wait and mid-run at instants placed relative to the undisturbed timeline. A constraint oracle (not a copy of the arithmetic) checks first run at 0, exact period after success, first retry after one minute, delays positive, within [min(60 s, period), max(60 s, period)], non-decreasing and growing below the period, immediate run on SIGHUP, clean exit on INT/TERM at the right instant.",
+   "The job body is scripted (hook H4); signal/timer ties to the millisecond are not generated; for periods below one minute the monotonicity clause is not applied (see DESIGN).", "DESIGN.md §2 E7"),
 }
 
 NOT_YET = "check not built yet (construction in progress; see DESIGN.md)"
